@@ -3,7 +3,6 @@
 //@ kind P
 //@ enforce ElemStack_expandStack
 //@ replace memcpy
-//@ replace memset
 //@ cbmc all --unsigned-overflow-check
 //@ entry h_elemstack_expandStack
 //@ note loop-free; stack capacity 4..2^40 ((XMLSize_t)(cap * 1.25) evaluated bit-precisely; it does not grow below 4: RI_stk, the constructor starts at 32); memcpy / memset are replaced by their C11 contracts stated at the ghost-selected slot; `new (fMemoryManager) StackElem` and allocate() hand out harness-prepared fresh objects, never fail
